@@ -8,8 +8,8 @@ spec/trace/J_BoundaryCond.tla  TLC judges the flag arrays recorded from the real
                            (clause Mechanism = conformance -> drift).
 
 Every emitted program (<= 3 assignments over 4 boundary faces, duplicates included, index and boolean-mask form) is
-executed on real BoundaryCondition / BoundaryConditionVectorial objects on a Cartesian grid, a simplex grid and split
-fractured grids (thorough: also 3-D grids)."""
+executed on real BoundaryCondition / BoundaryConditionVectorial objects on a Cartesian grid, a simplex grid, a split
+fractured grid and a fracture grid with tip faces (thorough: also an immersed-fracture host grid and 3-D grids)."""
 from __future__ import annotations
 
 import warnings
@@ -55,6 +55,14 @@ def grids(ctx_quick):
     ff = np.where(sd.tags["fracture_faces"])[0]
     db = np.where(sd.tags["domain_boundary_faces"])[0]
     _GRIDS["frac2i"] = (sd, sorted([int(db[1]), int(db[-2]), int(ff[0]), int(ff[1])]))
+    # the 2-d grid OF a fracture immersed in a 3-d domain (x in [1,3], y in [1,2], z = 1 in a 3x3x2 box): its boundary
+    # faces are tip faces (off the domain boundary) except one on the domain boundary; one interior face
+    mdg = pp.meshing.cart_grid([np.array([[1, 3, 3, 1], [1, 1, 2, 2], [1, 1, 1, 1]])], np.array([3, 3, 2]))
+    sd = mdg.subdomains(dim=2)[0]
+    tips = np.where(sd.tags["tip_faces"])[0]
+    db = np.where(sd.tags["domain_boundary_faces"])[0]
+    assert tips.size >= 4 and db.size >= 1 and sd.num_faces > sd.get_all_boundary_faces().size
+    _GRIDS["tip2"] = (sd, sorted([int(tips[0]), int(tips[2]), int(tips[-1]), int(db[0])]))
     g = pp.CartGrid([2, 1, 1])
     g.compute_geometry()
     bf = g.get_all_boundary_faces()
@@ -188,15 +196,16 @@ def run(ctx):
     q = ctx.quick
     ctx.rule = ("TLC enumerates every program of <= 3 Assign steps over 4 boundary faces (3 conditions, repetitions, index "
                 "or boolean-mask form per call; vectorial class: split over constructor + later set_bc calls); each is "
-                "executed on real objects per grid (Cartesian, simplex, split fractured; thorough: immersed fracture, 3-D "
-                "Cartesian, tetrahedral, 3-D fractured), also with the condition passed as one "
+                "executed on real objects per grid (Cartesian, simplex, split fractured, the 2-d grid of an immersed "
+                "fracture with tip faces; thorough: host grid of an immersed fracture, 3-D Cartesian, tetrahedral, 3-D "
+                "fractured), also with the condition passed as one "
                 "string where a call allows it; TLC judges the recorded flag arrays; evaluations = executed "
                 "(program, grid, class) cases; non-trivial classes = (calls, forms, conditions, repeated face)")
     ctx.assumptions = ["faces are assigned only on boundary-like faces (domain boundary, fracture); interior faces are "
                        "rejected by the constructors and not part of the family",
                        "internal_to_dirichlet is %s" % ("included" if WITH_INTERNAL_TO_DIRICHLET else "not included")]
     G = grids(q)
-    names = ["cart2", "tri2", "frac2"] + ([] if q else ["frac2i", "cart3", "tet3", "frac3"])
+    names = ["cart2", "tri2", "frac2", "tip2"] + ([] if q else ["frac2i", "cart3", "tet3", "frac3"])
     gconst = [grid_const(*G[n]) for n in names]
     with ThreadPoolExecutor(6) as pool:
         fs = pool.submit(enumerate_programs, ctx, "scalar", False, 3, True)
